@@ -518,6 +518,7 @@ pub fn block_diff(i: &BlockObs, j: &BlockObs) -> Vec<&'static str> {
     }
   }
   if i.io_digest != j.io_digest { d.push("device-state"); }
+  if j.host_clobber != 0 { d.push("host-callee-saved-registers"); }
   d
 }
 
@@ -984,18 +985,81 @@ pub fn run(prop: &'static str, tier: &str) -> i32 {
   let mut rep = Report::new(prop, tier, "exploration");
   let a = stage_single(prop, &mut rep);
   let b = stage_banked_fetch(prop, &mut rep);
-  rep.evaluations = a + b;
+  let c = stage_shipping(prop, &mut rep);
+  rep.evaluations = a + b + c;
   rep.finish()
 }
 
-/// Stage (a): every encoding as a single instruction (C05/C06) or single-instruction block
-/// (C01/C02) over its complete operand class.  Returns the number of evaluations.
-pub fn stage_single(prop: &'static str, rep: &mut Report) -> u64 {
-  if let Err(e) = r1::self_test() {
-    rep.machinery_error(format!("R1 self-test failed: {}", e));
-    return 0;
+/// The same single-step conformance sweeps in the hooks-off build with the repository's
+/// release settings (opt-level 3, no overflow checks, no debug assertions): what the
+/// interpreter does with an instruction must not depend on how it was compiled.  Runs as a
+/// separate process (`gbmc <prop> --worker shipping <tier> <out.json>`).
+pub fn stage_shipping(prop: &'static str, rep: &mut Report) -> u64 {
+  let bin = match std::env::var("GBMC_PLAIN_BIN") {
+    Ok(b) => b,
+    Err(_) => {
+      rep.machinery_error("GBMC_PLAIN_BIN not set (run through bin/check)".to_string());
+      return 0;
+    },
+  };
+  let out = format!("{}/shipping_{}.json", crate::util::pool::tmp_dir(), prop);
+  match std::process::Command::new(&bin).args(&[prop, "--worker", "shipping", rep.tier.as_str(), &out]).status() {
+    Ok(st) if st.success() => {},
+    Ok(st) => {
+      rep.machinery_error(format!("shipping-build worker failed: {:?}", st));
+      return 0;
+    },
+    Err(e) => {
+      rep.machinery_error(format!("cannot start shipping-build worker {}: {}", bin, e));
+      return 0;
+    },
   }
-  let thorough = rep.thorough();
+  let m = match crate::progrun::parse_json_file(&out) {
+    Ok(m) => m,
+    Err(e) => {
+      rep.machinery_error(format!("shipping-build worker result: {}", e));
+      return 0;
+    },
+  };
+  let _ = std::fs::remove_file(&out);
+  let r = crate::util::pool::PoolResult::from_json(&m, "shipping-build worker");
+  if r.cases_total == 0 || r.cases_done != r.cases_total && !r.capped {
+    rep.machinery_error(format!("shipping-build worker covered {} of {} cases", r.cases_done, r.cases_total));
+  }
+  let c = rep.add_stage(
+    "shipping-build",
+    "the single-step conformance sweeps again in a hooks-off build with the repository's release settings (opt-level 3, no overflow checks, no debug assertions); registers, flags, PC, SP, cycles, status, refusal of undefined opcodes and the bytes at the predicted write addresses are compared with R1 (exactness of the write set is judged in the instrumented build only)",
+    r,
+  );
+  c[0]
+}
+
+/// worker entry (hooks-off build)
+pub fn worker(prop: &'static str, args: &[String]) -> i32 {
+  if args.len() < 3 || args[0] != "shipping" {
+    eprintln!("{} worker: bad arguments {:?}", prop, args);
+    return 2;
+  }
+  if crate::world::hooks_on() {
+    eprintln!("{} worker: the shipping stage must run in the hooks-off build", prop);
+    return 2;
+  }
+  if let Err(e) = r1::self_test() {
+    eprintln!("R1 self-test failed in the hooks-off build: {}", e);
+    return 2;
+  }
+  let (_job, mut r) = single_pool(prop, args[1] == "thorough");
+  for v in r.violations.iter_mut() {
+    // bin/check --replay re-executes such a case in this build
+    v.detail.put("build", J::s("shipping"));
+  }
+  if std::fs::write(&args[2], r.to_json().to_string()).is_err() {
+    return 2;
+  }
+  0
+}
+
+fn single_pool(prop: &'static str, thorough: bool) -> (Job, crate::util::pool::PoolResult) {
   let jit = prop == "C01" || prop == "C02";
   let sweeps = build_sweeps(prop, thorough);
   let mut starts = Vec::with_capacity(sweeps.len());
@@ -1020,6 +1084,19 @@ pub fn stage_single(prop: &'static str, rep: &mut Report) -> u64 {
       )
     },
   );
+  (job, r)
+}
+
+/// Stage (a): every encoding as a single instruction (C05/C06) or single-instruction block
+/// (C01/C02) over its complete operand class.  Returns the number of evaluations.
+pub fn stage_single(prop: &'static str, rep: &mut Report) -> u64 {
+  if let Err(e) = r1::self_test() {
+    rep.machinery_error(format!("R1 self-test failed: {}", e));
+    return 0;
+  }
+  let thorough = rep.thorough();
+  let jit = prop == "C01" || prop == "C02";
+  let (job, r) = single_pool(prop, thorough);
   let space = match prop {
     "C05" | "C01" => "every data opcode x complete operand class: A x operand x F (2^20) for ALU forms, value x F for INC/DEC/CB/LD, all 2^16 for 16-bit loads/inc/dec/POP/PUSH, 2^16 x 2^8 for SP-relative forms, all 65536 pointer values for memory forms, ADD HL,rr boundary product (quick) or all 2^32 pairs (thorough); C01 adds the control-flow sweeps: all 512 encodings x 16 F x 12 ROM placements, JR x 256 displacements, JP/CALL x 65536 targets, stack forms x SP set",
     _ => "all 512 encodings x 16 F x placements (+ region-straddling placements); JR x all 256 displacements x placements x 16 F; JP/CALL x all 65536 targets; stack/control forms x SP boundary set (quick) or all 65536 SP values (thorough)",
